@@ -34,6 +34,20 @@ V_interval(e) ==
     Fail(e.outcome # "ok" \/ e.nr_full # NrFullIntervals(e.a, e.n) \/ e.len # Len(e.a), "C17.interval_counts") \cup
     Fail(e.outcome # "ok" \/ ~SeqOK(e.ov_lin, OversampleLinspace(e.a, e.num), Tol) \/ ~SeqOK(e.ov_pw, OversamplePiecewise(e.a, e.num), Tol) \/ e.ov_n # e.n * e.num, "C17.interval_oversample")
 
+(* beyond the listed property: flat indices, iteration, repr, index arity, extension through the view, list input *)
+RECURSIVE ApplyFlatSets(_, _, _)
+ApplyFlatSets(a, sets, k) == IF k > Len(sets) THEN a ELSE ApplyFlatSets(IvSetFlat(a, sets[k][1], sets[k][2]), sets, k + 1)
+V_interval_more(e) ==
+    IF e.outcome # "ok" THEN {} ELSE
+    Fail(\E k \in 1..Len(e.fgets) : ~NearV(e.fgets[k][2], IvGetFlat(e.a, e.fgets[k][1]), Tol), "impl.interval_flat_get") \cup
+    Fail(~SeqOK(e.after_fsets, ApplyFlatSets(e.a, e.fsets, 1), Tol), "impl.interval_flat_set") \cup
+    Fail(~SeqOK(e.iter, e.a, Tol), "impl.interval_iter") \cup
+    Fail(e.repr_n # e.n \/ ~SeqOK(e.repr_vals, e.a, Tol), "impl.interval_repr") \cup
+    Fail(e.idx3 # "IndexError" \/ e.set3 # "IndexError", "impl.interval_index_arity") \cup
+    Fail(Len(e.a) > e.n /\ ~SeqOK(e.ext_lin, ExtendLinspace(e.a, e.n, e.ext_dir, None, None), Tol), "impl.interval_extend_linspace") \cup
+    Fail(~SeqOK(e.ext_const, ExtendConstant(e.a, e.n, e.ext_dir), Tol) \/ e.ext_n # e.n, "impl.interval_extend_constant") \cup
+    Fail(~SeqOK(e.from_list, e.a, Tol) \/ e.from_list_kind # "ndarray", "impl.interval_from_list")
+
 V_average(e) ==
     LET m == Average(e.x, e.y, e.n)
     IN Fail(e.outcome # "ok" \/ ~SeqOK(e.outx, m[1], Tol), "C17.average_x") \cup
